@@ -60,8 +60,8 @@ func modulusOK(w *World, fn *ssa.Function, m *T) (bool, string) {
 				idx = i
 			}
 		}
-		for _, call := range w.Callers(fn) {
-			ps, _ := w.Paths(call.Parent())
+		for _, callRoot := range w.CallerRoots(fn) {
+			ps, _ := w.Paths(callRoot)
 			for _, p := range ps {
 				for _, e := range p.Events {
 					if e.Kind == "call" && e.Callee == fn && idx >= 0 && idx < len(e.Args) {
@@ -70,13 +70,13 @@ func modulusOK(w *World, fn *ssa.Function, m *T) (bool, string) {
 							continue
 						}
 						if a.Op == "p" {
-							if ok, msg := modulusOK(w, call.Parent(), a); ok {
+							if ok, msg := modulusOK(w, callRoot, a); ok {
 								continue
 							} else {
 								return false, msg
 							}
 						}
-						return false, call.Parent().Name() + " passes " + a.Show() + " as the modulus"
+						return false, callRoot.Name() + " passes " + a.Show() + " as the modulus"
 					}
 				}
 			}
@@ -556,6 +556,12 @@ func ruleErrProp(w *World, r *RuleResult) {
 					if e.Callee.Pkg != nil && e.Callee.Pkg != w.SLib && e.Callee.Pkg.Pkg.Path() == "fmt" {
 						continue // fmt.Errorf constructs an error
 					}
+					if rc := e.Callee.Signature.Recv(); rc != nil && isTextBuilder(rc.Type()) {
+						continue // writes into an in-memory builder: documented to always return a nil error
+					}
+				}
+				if e.Res.Op == "tuple" && len(e.Res.A) > 0 && e.Res.A[len(e.Res.A)-1].Op == "nil" {
+					continue // the explorer knows the error is nil (in-memory builder)
 				}
 				var errT *T
 				if rs.Len() == 1 {
@@ -623,28 +629,50 @@ func ruleErrProp(w *World, r *RuleResult) {
 // ---------------------------------------------------------------- LINE.drop / LINE.skip
 
 func loaderFuncs(w *World) []*ssa.Function {
-	var out []*ssa.Function
+	// the readers: functions returning (WarriorData, error) whose exploration
+	// contains a bufio read (directly or in a helper expanded in place)
+	isWD := map[*ssa.Function]bool{}
 	for _, fn := range warriorDataFuncs(w) {
+		isWD[fn] = true
+	}
+	seen := map[*ssa.Function]bool{}
+	var out []*ssa.Function
+	for _, fn := range libFuncs(w) {
+		reads := false
 		for _, b := range fn.Blocks {
 			for _, in := range b.Instrs {
 				if ci, ok := in.(ssa.CallInstruction); ok {
 					if cal := ci.Common().StaticCallee(); cal != nil && cal.Pkg != nil && cal.Pkg.Pkg.Path() == "bufio" && strings.HasPrefix(cal.Name(), "Read") {
-						out = append(out, fn)
+						reads = true
 					}
 				}
 			}
 		}
-	}
-	// dedup
-	seen := map[*ssa.Function]bool{}
-	var o2 []*ssa.Function
-	for _, f := range out {
-		if !seen[f] {
-			seen[f] = true
-			o2 = append(o2, f)
+		if !reads {
+			continue
+		}
+		for _, root := range w.rootsOf(fn) {
+			if isWD[root] && !seen[root] {
+				seen[root] = true
+				out = append(out, root)
+			}
 		}
 	}
-	return o2
+	sort.Slice(out, func(i, j int) bool { return out[i].String() < out[j].String() })
+	return out
+}
+
+// callsWithin: root's exploration contains a call of callee (in root itself
+// or in a helper expanded in place).
+func callsWithin(w *World, root, callee *ssa.Function) bool {
+	for _, call := range w.Callers(callee) {
+		for _, r := range w.rootsOf(call.Parent()) {
+			if r == root {
+				return true
+			}
+		}
+	}
+	return false
 }
 
 func ruleLineDrop(w *World, r *RuleResult) {
@@ -1475,8 +1503,8 @@ func ruleLabelRel(w *World, r *RuleResult) {
 		d.add(false, "label-number/none", w.Pos(fn.Pos()), "", "no path substitutes a number for a label")
 	}
 	// callers pass the referring line's own code-line index (0 for start/assert expressions)
-	for _, call := range w.Callers(fn) {
-		ps, _ := w.Paths(call.Parent())
+	for _, callRoot := range w.CallerRoots(fn) {
+		ps, _ := w.Paths(callRoot)
 		for _, p := range ps {
 			for i := range p.Events {
 				e := &p.Events[i]
@@ -1489,7 +1517,7 @@ func ruleLabelRel(w *World, r *RuleResult) {
 				if a.Op == "sel" && a.S == "codeLine" && exprArg.Op == "sel" && exprArg.A[0].Key() == a.A[0].Key() {
 					good = true
 				}
-				d.add(good, call.Parent().Name()+"/line-arg/"+exprArg.Show(), w.Pos(instrPosE(e)), "referring line index passed with its own expression (0 for ORG/END/assert)", "expandExpression is given line "+a.Show()+" for expression "+exprArg.Show()+": labels would be relative to the wrong line")
+				d.add(good, callRoot.Name()+"/line-arg/"+exprArg.Show(), w.Pos(instrPosE(e)), "referring line index passed with its own expression (0 for ORG/END/assert)", "expandExpression is given line "+a.Show()+" for expression "+exprArg.Show()+": labels would be relative to the wrong line")
 			}
 		}
 	}
